@@ -71,6 +71,7 @@ func EngineRun(p *Program, funcs map[string]jet.Func) (jetrun.Outcome, jet.VarMa
 		}
 		return reflect.Value{}
 	})
+	s.AddGlobalFunc("given", func(a jet.Arguments) reflect.Value { return reflect.ValueOf(a.IsSet(0)) })
 	swCustomFn, _ := safeWriter("swCustom")
 	swCustom := mkSafeWriter(swCustomFn)
 	s.AddGlobal("swCustom", swCustom)
@@ -85,6 +86,10 @@ func EngineRun(p *Program, funcs map[string]jet.Func) (jetrun.Outcome, jet.VarMa
 	for k, r := range p.Vars {
 		if r.T == "swcustom" {
 			vars.Set(k, swCustom)
+			continue
+		}
+		if r.T == "unexported-string" {
+			vars[k] = reflect.ValueOf(struct{ s string }{r.S}).Field(0)
 			continue
 		}
 		v := Build(r)
@@ -112,7 +117,7 @@ func EngineRun(p *Program, funcs map[string]jet.Func) (jetrun.Outcome, jet.VarMa
 		}
 		vars = nil
 	}
-	if len(p.Late) > 0 {
+	if len(p.Late) > 0 || len(p.Gone) > 0 {
 		func() {
 			defer func() { recover() }()
 			if t0, o0 := jetrun.Get(s, p.Entry); !o0.Failed() {
@@ -129,6 +134,9 @@ func EngineRun(p *Program, funcs map[string]jet.Func) (jetrun.Outcome, jet.VarMa
 		}()
 		for _, k := range p.Late {
 			loader.Set(k, src[k])
+		}
+		for _, k := range p.Gone {
+			loader.Delete(k)
 		}
 	}
 	t, o := jetrun.Get(s, p.Entry)
@@ -166,7 +174,7 @@ func EngineRun(p *Program, funcs map[string]jet.Func) (jetrun.Outcome, jet.VarMa
 		}()
 	}
 	if p.FailOnPrefix != "" {
-		w := &refusingWriter{prefix: []byte(p.FailOnPrefix)}
+		w := &refusingWriter{Buffer: new(bytes.Buffer), prefix: []byte(p.FailOnPrefix)}
 		o := jetrun.Outcome{}
 		func() {
 			defer func() {
@@ -222,7 +230,11 @@ func mkSafeWriter(f func([]byte) []byte) jet.SafeWriter {
 
 // brokenWriter accepts left bytes and fails from then on.
 // refusingWriter fails once: on the first Write whose payload begins with prefix.
+// refusingWriter wraps a buffer the way applications wrap response writers: by embedding it and overriding Write.
+// What reaches the destination reaches it through Write; the methods the embedded buffer brings along (WriteString,
+// ReadFrom, ...) are not the destination's.
 type refusingWriter struct {
+	*bytes.Buffer
 	prefix  []byte
 	refused bool
 	got     []byte
